@@ -59,4 +59,21 @@ def nodeSeeds (N : Net n) (p : Space n) (motifs : List (Space n)) (cands : List 
   if cands.isEmpty || (motifs.isEmpty && cands.length == 1) then ⟨cands, none⟩
   else symbolicSeeds N p motifs cands true
 
+/-- `s` lies in the node's space and in one of the motifs -/
+def inK (p : Space n) (motifs : List (Space n)) (s : State n) : Bool :=
+  p.memB s && motifs.any fun m => m.memB s
+
+def nodupB : List (State n) → Bool
+  | [] => true
+  | x :: xs => !xs.contains x && nodupB xs
+
+/-- the hypotheses of `symbolicSeeds_spec`, evaluated on one concrete call: `p` is a trap space; the candidates are
+    pairwise distinct states of `p` outside the motifs; every attractor inside `p` that meets no motif contains one -/
+def symHypB (N : Net n) (p : Space n) (motifs : List (Space n)) (cands : List (State n)) : Bool :=
+  isTrapB N p &&
+  cands.all (fun c => p.memB c && !inK p motifs c) &&
+  nodupB cands &&
+  (attractors N).all fun A =>
+    !(A.all (fun s => p.memB s && !inK p motifs s)) || cands.any fun c => A.contains c
+
 end Balm.Impl
